@@ -7,6 +7,11 @@
 // Op:  pipe <coarsening> <relaxation> <solver> <coarse_enough> <max_levels> <direct_coarse> <npre> <npost> <ncycle> <maxiter> A f
 //      papply <class 0 amg|1 relaxation|2 dummy> <coarsening> <relaxation> <coarse_enough> <max_levels> <direct_coarse> A f
 //             (preconditioner.apply(rhs, x) with the OUTPUT vector x allocated uninitialised, i.e. holding the fill pattern)
+//      pcomp <kind 0 cpr|1 cpr_drs|2 schur_pressure_correction|3 kernels> <block_size> A f
+//             composite preconditioners in double (spai0 / ilu0 inner preconditioners) constructed and applied to an
+//             uninitialised output vector; kind 3: backend::sum, pointwise_matrix, unblock_matrix, crs copy / assignment,
+//             numa_vector::resize — the arrays they return are compared across the fills
+// Every case is tagged with the keys of the uninitialised allocation sites (tools/alloc_sites.py) it ran through.
 //      phist  <same arguments as papply>    ONE preconditioner object, double precision: apply(f) -> a; apply(2^47 * g);
 //             apply(a vector holding NaN and Inf); apply(f) -> b.  The object's persistent work vectors (level scratch,
 //             Chebyshev p/r, ...) have then seen huge and non-finite values: b must equal a BITWISE (C02: B is one fixed
@@ -14,31 +19,10 @@
 //             (a coefficient that is zero only in exact arithmetic) are invisible at the exact type Q — this op is the
 //             floating-point side.  Built with -DPIPE_HIST_ONLY the harness generates only these ops (checks C02, C15).
 // The values are small dyadic rationals, converted to double exactly.  Implementation-only harness (no model line).
+#include "poison.hpp"      // replaced operator new (fill patterns) + allocation-site tracker; must come first
 #include "gen.hpp"
-#include <new>
-#include <cstdlib>
-#include <cstring>
 #include <limits>
 #include <cmath>
-
-// ---------------------------------------------------------------- allocation poisoning
-namespace poison {
-    static int mode = -1;                 // -1 = off, 0: 0x00, 1: 0xFF, 2: 0xAA, 3: PRNG bytes
-    static uint64_t state = 88172645463325252ULL;
-    static inline void fill(void *p, std::size_t n) {
-        if (mode < 0) return;
-        if (mode == 0) std::memset(p, 0x00, n);
-        else if (mode == 1) std::memset(p, 0xFF, n);
-        else if (mode == 2) std::memset(p, 0xAA, n);
-        else { unsigned char *c = (unsigned char*)p; for (std::size_t i = 0; i < n; ++i) { state ^= state << 13; state ^= state >> 7; state ^= state << 17; c[i] = (unsigned char)(state >> 32); } }
-    }
-}
-void* operator new(std::size_t n) { void *p = std::malloc(n ? n : 1); if (!p) throw std::bad_alloc(); poison::fill(p, n); return p; }
-void* operator new[](std::size_t n) { void *p = std::malloc(n ? n : 1); if (!p) throw std::bad_alloc(); poison::fill(p, n); return p; }
-void operator delete(void *p) noexcept { std::free(p); }
-void operator delete[](void *p) noexcept { std::free(p); }
-void operator delete(void *p, std::size_t) noexcept { std::free(p); }
-void operator delete[](void *p, std::size_t) noexcept { std::free(p); }
 
 #include <amgcl/amg.hpp>
 #include <amgcl/make_solver.hpp>
@@ -47,6 +31,16 @@ void operator delete[](void *p, std::size_t) noexcept { std::free(p); }
 #include <amgcl/relaxation/runtime.hpp>
 #include <amgcl/preconditioner/runtime.hpp>
 #include <amgcl/adapter/crs_tuple.hpp>
+#include <amgcl/adapter/block_matrix.hpp>
+#include <amgcl/preconditioner/cpr.hpp>
+#include <amgcl/preconditioner/cpr_drs.hpp>
+#include <amgcl/preconditioner/schur_pressure_correction.hpp>
+#include <amgcl/relaxation/as_preconditioner.hpp>
+#include <amgcl/relaxation/spai0.hpp>
+#include <amgcl/relaxation/ilu0.hpp>
+#include <amgcl/solver/preonly.hpp>
+#include <amgcl/value_type/static_matrix.hpp>
+#include <amgcl/coarsening/tentative_prolongation.hpp>
 #include <boost/property_tree/ptree.hpp>
 using namespace vh;
 
@@ -89,15 +83,16 @@ static Out run_once(const Case &k, int fill_mode) {
     prm.put("precond.npre", k.npre); prm.put("precond.npost", k.npost); prm.put("precond.ncycle", k.ncycle);
     if (std::string(solvers[k.s]) != "preonly") prm.put("solver.maxiter", k.maxiter);
     for (auto &kv : k.extra) prm.put((kv.first.compare(0, 7, "solver.") ? "precond." : "") + kv.first, kv.second);
-    poison::mode = fill_mode;
+    vh_poison::mode = fill_mode; vh_poison::track = (fill_mode == 1);
+    struct Off { ~Off() { vh_poison::mode = -1; vh_poison::track = false; } } off_guard;
     try {
         Solver solve(std::tie(k.A.n, ptr, col, val), prm);
         std::vector<double> x(k.A.n, 0.0);
         size_t it; double res; std::tie(it, res) = solve(rhs, x);
-        poison::mode = -1;
+        vh_poison::mode = -1;
         o.tag = "ok"; o.iters = it; o.resid = res; o.x = x;
-    } catch (const amgcl::error::empty_level&) { poison::mode = -1; o.tag = "empty_level"; }
-    catch (const std::exception &e) { poison::mode = -1; o.tag = "exception"; }
+    } catch (const amgcl::error::empty_level&) { vh_poison::mode = -1; o.tag = "empty_level"; }
+    catch (const std::exception &e) { vh_poison::mode = -1; o.tag = "exception"; }
     return o;
 }
 
@@ -119,17 +114,123 @@ static Out papply_once(const PCase &k, int fill_mode) {
         if (k.cls == 0) prm.put(kv.first, kv.second);
         else if (k.cls == 1 && !kv.first.compare(0, 6, "relax.")) prm.put(kv.first.substr(6), kv.second);
     }
-    poison::mode = fill_mode;
+    vh_poison::mode = fill_mode; vh_poison::track = (fill_mode == 1);
+    struct Off { ~Off() { vh_poison::mode = -1; vh_poison::track = false; } } off_guard;
     try {
         RPrecond P(std::tie(k.A.n, ptr, col, val), prm);
         double *xraw = new double[k.A.n ? k.A.n : 1];            // output vector: never initialised by the caller
         auto X = amgcl::make_iterator_range(xraw, xraw + k.A.n);
         P.apply(rhs, X);
-        poison::mode = -1;
+        vh_poison::mode = -1;
         o.tag = "ok"; o.x.assign(xraw, xraw + k.A.n); delete[] xraw;
-    } catch (const amgcl::error::empty_level&) { poison::mode = -1; o.tag = "empty_level"; }
-    catch (const std::exception &e) { poison::mode = -1; o.tag = "exception"; }
+    } catch (const amgcl::error::empty_level&) { vh_poison::mode = -1; o.tag = "empty_level"; }
+    catch (const std::exception &e) { vh_poison::mode = -1; o.tag = "exception"; }
     return o;
+}
+
+// ---------------------------------------------------------------- composites and kernels in double
+typedef amgcl::relaxation::as_preconditioner<Backend, amgcl::relaxation::spai0> PSpai;
+typedef amgcl::relaxation::as_preconditioner<Backend, amgcl::relaxation::ilu0> PIlu;
+typedef amgcl::preconditioner::cpr<PSpai, PIlu> CPR;
+typedef amgcl::preconditioner::cpr_drs<PSpai, PIlu> CPRDRS;
+typedef amgcl::make_solver<PIlu, amgcl::solver::preonly<Backend>> InnerS;
+typedef amgcl::preconditioner::schur_pressure_correction<InnerS, InnerS> SPC;
+typedef amgcl::static_matrix<double, 2, 2> BV2; typedef amgcl::static_matrix<double, 2, 1> BR2;
+typedef amgcl::backend::builtin<BV2> BBackend;
+typedef amgcl::relaxation::as_preconditioner<BBackend, amgcl::relaxation::spai0> PSpaiB;
+typedef amgcl::preconditioner::cpr<PSpai, PSpaiB> CPRB;
+typedef amgcl::preconditioner::cpr_drs<PSpai, PSpaiB> CPRDRSB;
+static const char *pcomps[] = { "cpr", "cpr_drs", "schur", "kernels", "cpr_block", "cpr_drs_block" };
+template <class P, class MA> static void block_cpr(Out &o, const MA &A, const std::vector<double> &rhs, long n) {
+    typename P::params prm;
+    auto Bm = amgcl::adapter::block_matrix<BV2>(A);
+    P pre(Bm, prm);
+    long nb = n / 2;
+    for (int round = 0; round < 2; ++round) {
+        amgcl::backend::numa_vector<BR2> F(nb), X(nb, false);      // output vector: never initialised
+        for (long i = 0; i < nb; ++i) { F[i](0) = rhs[2 * i]; F[i](1) = rhs[2 * i + 1]; }
+        pre.apply(F, X);
+        for (long i = 0; i < nb; ++i) { o.x.push_back(X[i](0)); o.x.push_back(X[i](1)); }
+        if (round == 0) pre.partial_update(Bm, true);
+    }
+}
+struct CCase { long kind, B; Mat A; std::vector<Q> f; };
+
+template <class M> static void dump_crs(std::vector<double> &o, const M &A) {
+    o.push_back((double)A.nrows); o.push_back((double)A.ncols);
+    for (size_t i = 0; i <= A.nrows; ++i) o.push_back((double)A.ptr[i]);
+    for (ptrdiff_t j = 0; j < (ptrdiff_t)A.ptr[A.nrows]; ++j) { o.push_back((double)A.col[j]); o.push_back(A.val[j]); }
+}
+template <class P> static void apply_raw(Out &o, const P &pre, const std::vector<double> &rhs, long n) {
+    double *xraw = new double[n ? n : 1];                        // output vector: never initialised by the caller
+    auto X = amgcl::make_iterator_range(xraw, xraw + n);
+    pre.apply(rhs, X);
+    o.x.assign(xraw, xraw + n); delete[] xraw;
+}
+static Out pcomp_once(const CCase &k, int fill_mode) {
+    Out o;
+    std::vector<ptrdiff_t> ptr(k.A.ptr), col(k.A.col); std::vector<double> val(k.A.val.size()), rhs(k.f.size());
+    for (size_t i = 0; i < val.size(); ++i) val[i] = k.A.val[i].v.get_d();
+    for (size_t i = 0; i < rhs.size(); ++i) rhs[i] = k.f[i].v.get_d();
+    vh_poison::mode = fill_mode; vh_poison::track = (fill_mode == 1);
+    struct Off { ~Off() { vh_poison::mode = -1; vh_poison::track = false; } } off_guard;
+    try {
+        auto A = std::tie(k.A.n, ptr, col, val);
+        if (k.kind == 0) { CPR::params prm; prm.block_size = (int)k.B; CPR P(A, prm); apply_raw(o, P, rhs, k.A.n);
+            Out o2; P.partial_update(A, true); apply_raw(o2, P, rhs, k.A.n); o.x.insert(o.x.end(), o2.x.begin(), o2.x.end()); }
+        else if (k.kind == 1) { CPRDRS::params prm; prm.block_size = (int)k.B; CPRDRS P(A, prm); apply_raw(o, P, rhs, k.A.n);
+            Out o2; P.partial_update(A, true); apply_raw(o2, P, rhs, k.A.n); o.x.insert(o.x.end(), o2.x.begin(), o2.x.end()); }
+        else if (k.kind == 4) block_cpr<CPRB>(o, A, rhs, k.A.n);
+        else if (k.kind == 5) block_cpr<CPRDRSB>(o, A, rhs, k.A.n);
+        else if (k.kind == 2) {
+            SPC::params prm; prm.pmask.assign(k.A.n, 0); for (long i = k.B - 1; i < k.A.n; i += k.B) prm.pmask[i] = 1;
+            SPC P(A, prm); apply_raw(o, P, rhs, k.A.n);
+        } else {
+            typedef amgcl::backend::crs<double> M;
+            M Ac(A);                                                        // crs(const Matrix&)
+            M Bc(Ac);                                                       // copy constructor
+            M Cc; Cc = Bc;                                                  // operator=
+            M Dc(Ac.nrows, Ac.ncols, ptr, col, val);                        // range constructor
+            auto S = amgcl::backend::sum(2.0, Ac, -0.5, *amgcl::backend::transpose(Dc), true);
+            dump_crs(o.x, Cc); dump_crs(o.x, *S);
+            if (k.A.n % k.B == 0) {
+                auto Pw = amgcl::backend::pointwise_matrix(Ac, (unsigned)k.B); dump_crs(o.x, *Pw);
+                if (k.B == 2) {
+                    typedef amgcl::static_matrix<double, 2, 2> BV;
+                    auto Bm = amgcl::adapter::block_matrix<BV>(A);
+                    amgcl::backend::crs<BV> Bcrs(Bm);
+                    auto U = amgcl::adapter::unblock_matrix(Bcrs); dump_crs(o.x, *U);
+                }
+            }
+            { M Rm; amgcl::backend::spgemm_rmerge(Ac, Dc, Rm); dump_crs(o.x, Rm); }      // row-merge product (normally > 16 threads only)
+            {   // tentative prolongation with near-null-space vectors (QR branch)
+                std::vector<ptrdiff_t> aggr(k.A.n); for (long i = 0; i < k.A.n; ++i) aggr[i] = (i % 5 == 4) ? -1 : i / 3;
+                long naggr = (k.A.n + 2) / 3;
+                amgcl::coarsening::nullspace_params ns; ns.cols = 1; ns.B.assign(k.A.n, 1.0);
+                auto Pt = amgcl::coarsening::tentative_prolongation<M>((size_t)k.A.n, (size_t)naggr, aggr, ns, 1);
+                dump_crs(o.x, *Pt); for (double b : ns.B) o.x.push_back(b);
+            }
+            amgcl::backend::numa_vector<double> v(3);
+            v.resize((size_t)k.A.n, true); for (long i = 0; i < k.A.n; ++i) o.x.push_back(v[i]);
+            amgcl::backend::numa_vector<double> w(rhs.begin(), rhs.end()); for (long i = 0; i < k.A.n; ++i) o.x.push_back(w[i]);
+            o.x.push_back(amgcl::backend::spectral_radius<true>(Ac, 3)); o.x.push_back(amgcl::backend::spectral_radius<false>(Ac, 2));
+        }
+        o.tag = "ok";
+    } catch (const amgcl::error::empty_level&) { o.tag = "empty_level"; o.x.clear(); }
+    catch (const std::exception &e) { o.tag = "exception"; o.x.clear(); }
+    return o;
+}
+static Result execute_pcomp(const Toks &t) {
+    Cur c(t); CCase k; k.kind = c.nat(); k.B = c.nat(); k.A = c.mat(); k.f = c.vec(); c.expect_end();
+    std::string why; if (!crs_wf(*k.A.crs(), why) || k.A.n != k.A.m || (long)k.f.size() != k.A.n) throw bad_input("shape");
+    if (k.kind < 0 || k.kind > 5 || k.B < 1 || k.B > 4 || (k.kind != 3 && k.A.n % k.B) || (k.kind > 3 && k.B != 2)) throw bad_input("enum");
+    Result r; Out base = pcomp_once(k, 0);
+    for (int m = 1; m <= 3; ++m) { Out o = pcomp_once(k, m); if (!same(base, o)) { r.fail(std::string("result depends on heap contents: fill 0x00 vs ") + (m == 1 ? "0xFF" : m == 2 ? "0xAA" : "random") + " (" + pcomps[k.kind] + ")"); break; } }
+    { Out o = pcomp_once(k, 0); if (!same(base, o)) r.fail("second run in the same process differs (allocation history)"); }
+    Line l; l << base.tag; for (double d : base.x) l << hex(d);
+    r.out = l.get(); r.nontrivial = base.tag == "ok" && k.A.n > 1; r.tag("pcomp").tag(pcomps[k.kind]).tag(base.tag);
+    for (auto &key : vh_poison::sites_since_mark()) r.tag("site:" + key);
+    return r;
 }
 
 static Result execute_phist(const Toks &t) {
@@ -177,11 +278,13 @@ static Result execute_papply(const Toks &t) {
     Line l; l << base.tag; for (double d : base.x) l << hex(d);
     r.out = l.get(); r.nontrivial = base.tag == "ok" && k.A.n > 1; r.tag("papply").tag(pclasses[k.cls]).tag(relaxations[k.r]).tag(base.tag);
     if (!k.extra.empty()) r.tag("nondefault_params");
+    for (auto &key : vh_poison::sites_since_mark()) r.tag("site:" + key);
     return r;
 }
 
 static Result execute(const Toks &t) {
     if (t[0] == "papply") return execute_papply(t);
+    if (t[0] == "pcomp") return execute_pcomp(t);
     if (t[0] == "phist") return execute_phist(t);
     Cur c(t); if (t[0] != "pipe") return Result("bad-op");
     Case k; k.c = c.nat(); k.r = c.nat(); k.s = c.nat(); k.ce = c.nat(); k.ml = c.nat(); k.dc = c.nat(); k.npre = c.nat(); k.npost = c.nat(); k.ncycle = c.nat(); k.maxiter = c.nat();
@@ -205,6 +308,7 @@ static Result execute(const Toks &t) {
     r.nontrivial = base.tag == "ok" && k.A.n > 1;
     r.tag(coarsenings[k.c]).tag(relaxations[k.r]).tag(solvers[k.s]).tag(base.tag);
     if (!k.extra.empty()) r.tag("nondefault_params");
+    for (auto &key : vh_poison::sites_since_mark()) r.tag("site:" + key);
     return r;
 }
 
@@ -319,6 +423,13 @@ static void generate(Rng &rng, const Opts &o, std::vector<std::string> &lines) {
         long cls = rng.range(0, 2), c = rng.range(0, 3), r = rng.range(0, 8);
         Line l; l << "papply" << cls << c << r << rng.pick(ces) << rng.pick(mls) << rng.coin(3, 4) << A << gen_vec(rng, A.n, true);
         if (rng.coin()) put_extra(l, rng, cls == 0 ? c : -1, r, -1);
+        lines.push_back(l.get());
+    }
+    // composites / kernels in double: every kind with every block size, on block-structured SPD matrices
+    for (long rep = 0; rep < (o.thorough() ? 12 : 2); ++rep) for (long kind = 0; kind <= 5; ++kind) for (long B = (kind == 3 ? 1 : 2); B <= (kind > 3 ? 2 : 3); ++B) {
+        long nb = rng.range(2, o.thorough() ? 12 : 6), n = nb * B;
+        Mat A = rng.coin(1, 4) ? gen_convdiff(rng, n) : dyadic_spd(rng, n, (int)rng.range(0, 3));
+        Line l; l << "pcomp" << kind << B << A << gen_vec(rng, n, true);
         lines.push_back(l.get());
     }
     gen_phist(rng, o, lines, N / 2);
